@@ -160,25 +160,73 @@ def run_shards(modname: str, shards: list, ctx: Ctx, nworkers: int) -> tuple[Sha
         return total, errors
     mpctx = mp.get_context("spawn")
     environ = {k: v for k, v in os.environ.items() if k.startswith(("VF_", "VERIF_", "NUMBA_", "OMP_", "PYTHON", "MPL"))}
+    unfinished: list = []
     with ProcessPoolExecutor(
         max_workers=nworkers,
         mp_context=mpctx,
         initializer=_worker_init,
         initargs=(environ, list(sys.path)),
     ) as ex:
-        futs = [ex.submit(_run_shard, modname, sh, ctx) for sh in shards]
+        futs = {ex.submit(_run_shard, modname, sh, ctx): sh for sh in shards}
         for f in as_completed(futs):
             try:
                 d = f.result()
-            except BaseException as e:  # noqa: BLE001
-                errors.append(f"worker died: {e!r}")
+            except BaseException:  # noqa: BLE001 - a worker process died (e.g. memory corruption in compiled code)
+                unfinished.append(futs[f])
                 continue
             if "_error" in d:
                 errors.append(d["_error"] + "\nshard=" + d["_shard"])
                 continue
             d.pop("_wall", None)
             total.merge(ShardResult(**d))
+    if unfinished:
+        _isolated(modname, unfinished, ctx, total, errors, nworkers)
     return total, errors
+
+
+def _isolated(modname: str, shards: list, ctx: Ctx, total: ShardResult, errors: list[str], nworkers: int) -> None:
+    """Re-run shards one per process after the pool broke; a shard that kills its interpreter is a violation."""
+    import subprocess
+    import tempfile
+
+    jobs = []
+    tmp = Path(tempfile.mkdtemp(prefix="iso-", dir=ctx.scratch))
+    for i, sh in enumerate(shards):
+        jf, of = tmp / f"job{i}.json", tmp / f"out{i}.json"
+        jf.write_text(json.dumps({"modname": modname, "shard": sh, "ctx": ctx.__dict__,
+                                  "num_threads": int(os.environ.get("NUMBA_NUM_THREADS", "1") or 1)}, default=_json_default))
+        jobs.append((sh, jf, of))
+    running: list = []
+    pending = list(jobs)
+    done = []
+    while pending or running:
+        while pending and len(running) < nworkers:
+            sh, jf, of = pending.pop(0)
+            p = subprocess.Popen([sys.executable, "-m", "vf.worker", str(jf), str(of)], cwd=str(VERIF_DIR),
+                                 stdout=subprocess.DEVNULL, stderr=subprocess.PIPE)
+            running.append((p, sh, of))
+        for item in list(running):
+            p, sh, of = item
+            if p.poll() is None:
+                continue
+            running.remove(item)
+            err = (p.stderr.read() or b"").decode(errors="replace")[-800:]
+            done.append((p.returncode, sh, of, err))
+        time.sleep(0.05)
+    for rc, sh, of, err in done:
+        if rc == 0 and of.exists():
+            d = json.loads(of.read_text())
+            if "_error" in d:
+                errors.append(d["_error"] + "\nshard=" + d["_shard"])
+                continue
+            d.pop("_wall", None)
+            total.merge(ShardResult(**d))
+        else:
+            total.evaluations += 1
+            total.violations.append(Violation(
+                {"site": "process", "symptom": "interpreter died while running the shard (crash in compiled code: out-of-bounds write?)"},
+                {"shard": sh, "inner": None, "no_reproduce": True},
+                f"exit status {rc}; stderr tail: {err}").to_json())
 
 
 # ---------------------------------------------------------------------------------------
